@@ -455,3 +455,10 @@ size_t fwrite(const void *p, size_t size, size_t nmemb, FILE *fp)
     int r = v_stdio_put(fp, (const char *)p, size * nmemb);
     return (r < 0 || size == 0) ? 0 : (size_t)r / size;
 }
+
+int access(const char *path, int mode)
+{
+    (void)path; (void)mode;
+    if (v_choice() & 1) { errno = v_errno_choice(); return -1; }
+    return 0;
+}
